@@ -17,3 +17,76 @@ r.mutants = RECV_MUTANTS['C05']
 s = SendUnit(keep=skeep('C05.'))
 s.mutants = SEND_MUTANTS['C05']
 UNITS = [r, s]
+
+
+# ------------------------------------------------------------------------------------------------ '??' listeners are silent on every call path
+import ast as _ast
+import z3 as _z3
+from pyvc.runner import Unit as _Unit
+from pyvc.values import *
+from pyvc import extract as _extract
+from .common import new_exec, closure, register_class
+from .zmqmodel import ZMQ, install as _install, zmq_consts, json_dumps as _jd, json_loads as _jl
+
+
+class _CtxCls:
+    m_free = staticmethod(lambda ex, o: o.f['log'].append('ZMQContext.free'))
+
+
+class _Sock:
+    m_close = staticmethod(lambda ex, o: o.f.__setitem__('closed', True))
+
+
+class SilentUnit(_Unit):
+    """real ZMQReceiver.send_oob / destroy / Sender.send_push for every mix of synchronized, ? and ?? sources: nothing is ever pushed towards a ?? source"""
+    name = 'ZMQReceiver.send_oob / destroy / Sender.send_push'
+    targets = (f'{ZMQ}::ZMQReceiver.send_oob', f'{ZMQ}::ZMQReceiver.destroy', f'{ZMQ}::ZMQReceiver.Sender.send_push')
+    required_covers = ('oob sent', 'destroyed')
+    mutants = (('destroy tells doubly ephemeral sources too', f'{ZMQ}::ZMQReceiver.Sender.send_push', 'if self.ephemeral < 2:', 'if True:', 'C05.silent'),)
+
+    def shapes(self, tier):
+        import itertools
+        return [(op, ephs) for op in ('send_oob', 'destroy') for n in (1, 2, 3) for ephs in itertools.product((0, 1, 2), repeat=n)]
+
+    def run(self, shape, dec):
+        op, ephs = shape
+        ex = new_exec(dec, ZMQ)
+        ex.modules[ZMQ] = zmq_consts()
+        _install(ex)
+        register_class(ex, ZMQ, 'ZMQReceiver')
+        register_class(ex, ZMQ, 'ZMQReceiver.Sender')
+        ex.models.update(ctxcls=_CtxCls, plainsock=_Sock)
+        log, pushlog = [], []
+        senders = {}
+        for k, e in enumerate(ephs):
+            sub = Obj('plainsock', closed=False, _k=k)
+            push = Obj('pushsock', log=pushlog, _k=k, tagged=True, closed=False) if e < 2 else None
+            senders[sub] = Obj('Sender', ephemeral=e, addr=f'a{k}', sub=sub, push=push, conn=_z3.Bool(f'conn{k}'), server_id=None, unique_id=f'u{k}')
+        ex.models['pushsock'].m_close = staticmethod(lambda ex_, o: o.f.__setitem__('closed', True))
+        me = Obj('ZMQReceiver', client_id='c', senders=senders)
+        g = ex.modules[ZMQ]
+        g.update(zmq=Obj('zmq', world=None), json_dumps=Native(_jd, 'json_dumps'), json_loads=Native(_jl, 'json_loads'), sleep=Native(lambda ex_, t: None, 'sleep'),
+                 ZMQContext=Obj('ctxcls', log=log))
+        try:
+            if op == 'send_oob':
+                ex.call_closure(closure(ZMQ, 'ZMQReceiver.send_oob'), [me, [Obj('oob payload')]], {})
+                ex.cover('oob sent')
+            else:
+                ex.call_closure(closure(ZMQ, 'ZMQReceiver.destroy'), [me], {})
+                ex.cover('destroyed')
+        except ExcSig as e:
+            ex.outcome = f'raise {e.cls}'
+            ex.oblige(f'C05.silent: {op} raises {e.cls} ({e.origin})', False)
+            return ex
+        ex.outcome = 'return'
+        for k, msg in pushlog:
+            body = msg[0].f['of'] if isinstance(msg[0], Obj) and msg[0].cls == 'jsonbytes' else {}
+            # out-of-band (exit) messages are not flow control: the statement only forbids flow-control traffic (requests, CLOSE) from a ?? listener
+            ex.oblige('C05.silent: a doubly ephemeral (??) source is never sent flow-control traffic (no request, no CLOSE)', ephs[k] < 2 or body.get('mid') == -2)
+        if op == 'destroy':
+            ex.oblige('C05.destroy: every socket that exists is closed and the context released once', all(s.f['sub'].f['closed'] for s in senders.values())
+                      and all(s.f['push'].f['closed'] for s in senders.values() if s.f['push'] is not None) and log == ['ZMQContext.free'])
+        return ex
+
+
+UNITS.append(SilentUnit())
